@@ -264,6 +264,11 @@ func (r *Recorder) SetCase(c any) {
 
 // Fail records the failure of the current case and aborts the rapid case.
 func (r *Recorder) Fail(t *rapid.T, c any, observed, expected string) {
+	if os.Getenv("VERIF_EXPLORE") != "" {
+		// Development aid: list failures instead of stopping at the first.
+		fmt.Printf("EXPLORE %s case=%s observed=%s\n", r.curCheck, mustJSON(c), observed)
+		return
+	}
 	r.mu.Lock()
 	r.seq++
 	r.lastFail = &failure{seq: r.seq, caseObj: c, observed: observed, expected: expected}
